@@ -43,7 +43,14 @@ def one(args):
         os.makedirs(t + "/out")
         env = dict(ENV, VERIF_REPO=t + "/repo", VERIF_OUT=t + "/out", VERIF_DIR="/verif")
         res = {}
-        for p in PROPS:
+        only = [x for x in os.environ.get("ONLY_PROPS", "").split(",") if x]
+        if only:
+            # a re-run of some checks only (their rules changed): the other results are kept from the last full run
+            old = json.load(open(d + "/meta.json"))
+            res = dict(old.get("checks") or {})
+            if "suite_rc" in old:
+                meta["suite_rc"] = old["suite_rc"]
+        for p in (only or PROPS):
             r = sh("%s -prop %s -tier quick" % (binary, p), env=env)
             lines = [l.replace(t + "/repo/", "")[:600] for l in re.findall(r"^(?:VIOLATED|UNDECIDED|CHECKER-ERROR).*$", r.stdout, re.M)]
             res[p] = {"exit": r.returncode}
